@@ -154,6 +154,24 @@ var codecs = []codec{
 				return "", nil, false
 			}
 			return fmt.Sprintf("%+v", *x), x.ToBytes(), true
+		},
+		// structured messages over the whole range of wrapped-key lengths (290..1024 bytes, the length repeated in the last two
+		// bytes): the parser for messages with a header must accept exactly what the header-less parser accepts
+		gen: func(r *vrng) (string, []byte) {
+			w := r.pick(290, 291, 400, 600, 1023, 1024, 1024)
+			src := append([]byte{10 << 3}, r.bytes(53, 256)...)
+			wk := r.bytes(w, 256)
+			wk[w-2], wk[w-1] = byte(w>>8), byte(w)
+			src = append(src, wk...)
+			hdr := &l4openvpn.MessageHeader{}
+			if hdr.FromBytes(src[:1]) != nil {
+				return "", src
+			}
+			y := &l4openvpn.MessageCrypt2{}
+			if y.FromBytesHeadless(src[1:], hdr) != nil {
+				return "", src
+			}
+			return fmt.Sprintf("%+v", *y), src
 		}},
 }
 
